@@ -17,14 +17,14 @@ S3 == [prot |-> [orig |-> <<<<160>>>>, hdr |-> EmptyHeader], unprot |-> EmptyHea
 
 Algs == {<<>>, <<Assigned("Algorithm", "ES256")>>, <<Priv(Neg2I(65537))>>, <<TextL(<<120>>)>>}
 Crits == {<<>>, <<Assigned("HeaderParameter", "Alg")>>, <<Assigned("HeaderParameter", "Kid"), TextL(<<97>>)>>}
-Cts == {<<>>, <<Assigned("CoapContentFormat", "Cbor")>>, <<TextL(<<97, 47, 98>>)>>}
+Cts == {<<>>, <<Assigned("CoapContentFormat", "Cbor")>>, <<TextL(<<97, 47, 98>>)>>, <<TextL(<<65, 47, 98, 59, 32, 81, 61, 90>>)>>}     \* "a/b", "A/b; Q=Z"
 Kids == {<<>>, <<1>>}
 IvPivs == {<< <<>>, <<>> >>, << <<1>>, <<>> >>, << <<>>, <<2>> >>}
 Css == {<<>>, <<S1>>, <<S2, S3>>}
 Rests == {<<>>, << <<Nat2I(8), Nat2I(1)>> >>, << <<Ta, Nil>>, <<Neg2I(1), B0>> >>, << <<I63max, F15>>, <<Nat2I(0), U64max>>, <<N63, Tag1>> >>}
 Headers == {[alg |-> a, crit |-> c, ct |-> t, kid |-> k, iv |-> v[1], piv |-> v[2], cs |-> s, rest |-> r] :
               a \in (IF Full THEN Algs ELSE {<<>>, <<Assigned("Algorithm", "ES256")>>}), c \in (IF Full THEN Crits ELSE {<<>>, <<Assigned("HeaderParameter", "Alg")>>}),
-              t \in (IF Full THEN Cts ELSE {<<>>, <<TextL(<<97, 47, 98>>)>>}), k \in Kids, v \in IvPivs, s \in Css,
+              t \in (IF Full THEN Cts ELSE {<<>>, <<TextL(<<65, 47, 98, 59, 32, 81, 61, 90>>)>>}), k \in Kids, v \in IvPivs, s \in Css,
               r \in (IF Full THEN Rests ELSE {<<>>, << <<Ta, Nil>>, <<Neg2I(1), B0>> >>})}
 
 HA == [EmptyHeader EXCEPT !.alg = <<Assigned("Algorithm", "ES256")>>]
